@@ -283,13 +283,65 @@ def through_sqlite(ns, res, case, n):
         conn.close()
 
 
+def leg_wrong_length_names(ns, res, spec):
+    """Column-name lists shorter or longer than the records (input and join table, py and js list front-ends): the query is refused - or, if an
+    implementation chooses to accept it, the header it reports still has one name per field of every output record."""
+    from ..js import bridge
+    rng = random.Random(spec['seed'] * 2147483629 + 5)
+    shapes = ['select *', 'select a.*', 'select * except a1', 'select distinct count *', 'update a1 = "x"', 'select NR, *', 'select b.* join b on a1 == b1', 'select *, b.* join b on a1 == b1', 'select a1, a2']
+    node = bridge.Node.start()
+    try:
+        reqs, meta = [], []
+        for n in range(spec['n']):
+            w = rng.randrange(2, 5)
+            A = [[rng.choice(['a', 'b', 'ab', '1']) for _ in range(w)] for _ in range(rng.randrange(1, 4))]
+            B = [[A[0][0], 'J', 'K'], ['zz', 'L', 'M']]
+            full_a, full_b = ['n%d' % i for i in range(w)], ['m1', 'm2', 'm3']
+            which = rng.choice(['a-short', 'a-long', 'b-short', 'b-long'])
+            an = full_a[:-1] if which == 'a-short' else (full_a + ['x'] if which == 'a-long' else full_a)
+            bn = full_b[:-1] if which == 'b-short' else (full_b + ['x'] if which == 'b-long' else full_b)
+            q = rng.choice(shapes if which[0] == 'b' else shapes[:6] + shapes[8:])
+            if which[0] == 'b' and ' join ' not in q:
+                q = shapes[6]
+            use_b = ' join ' in q
+            out, names, err = [], [], None
+            try:
+                ns.rbql.query_table(q, [list(r) for r in A], out, [], [list(r) for r in B] if use_b else None, list(an), list(bn) if use_b else None, names)
+            except Exception as e:
+                err = util.error_class(e)
+            res.evaluations += 1
+            res.count('wrong_length_names_runs')
+            res.count('wrong_length_names_outcome:py:' + str(err))
+            res.nontrivial('short-names', q, which, repr(A))
+            case = {'leg': 'wrong-length-names', 'query_text': q, 'A': A, 'B': B if use_b else None, 'a_names': an, 'b_names': bn if use_b else None, 'engine': 'py'}
+            if err is None and names and any(len(r) != len(names) for r in out):
+                res.violation('py:header-width-differs-from-record-width', '[py] %s with %s column names %r / %r over %d-field records: header %r, records %r' % (q, which, an, bn if use_b else None, w, names, out[:2]), case)
+            elif err not in (None, 'io'):
+                res.violation('py:wrong-length-names-error-class', '[py] %s with %s column names: %s' % (q, which, err), case)
+            reqs.append({'query': q, 'input': A, 'join': B if use_b else None, 'input_cols': an, 'join_cols': bn if use_b else None})
+            meta.append((q, which, an, bn, w))
+        if node is not None:
+            outs = node.call({'op': 'query_batch', 'cases': reqs})['results']
+            for (q, which, an, bn, w), rq, o in zip(meta, reqs, outs):
+                res.evaluations += 1
+                res.count('wrong_length_names_runs_js')
+                if o['error'] is None and o['header'] and any(len(r) != len(o['header']) for r in o['out']):
+                    res.violation('js:header-width-differs-from-record-width', '[js] %s with %s column names %r / %r over %d-field records: header %r, records %r' % (q, which, an, bn, w, o['header'], o['out'][:2]), {'leg': 'wrong-length-names', 'req': rq, 'engine': 'js'})
+    finally:
+        if node is not None:
+            node.close()
+    res.sample({'leg': 'wrong-length-names', 'shapes': shapes[:4]})
+
+
 def plan(tier, seed):
     k = NSHARDS[tier]
-    return [{'k': k, 'i': i, 'n': CASES[tier] // k} for i in range(k)]
+    return [{'k': k, 'i': i, 'n': CASES[tier] // k} for i in range(k)] + [{'kind': 'wrong-length-names', 'n': 300 if tier == 'quick' else 3000}]
 
 
 def run_shard(spec, res):
     ns = env.import_rbql()
+    if spec.get('kind') == 'wrong-length-names':
+        return leg_wrong_length_names(ns, res, spec)
     rng = random.Random(spec['seed'] * 67867967 + spec['i'])
     qt, mode = contracts.armed_query_table(ns)
     res.notes.append('contracts: ' + mode)
@@ -338,7 +390,7 @@ def summarize(tier, seed, m):
     shapes = sorted(k[6:] for k in m['counters'] if k.startswith('shape:'))
     return {
         'rule': 'select lists of 1-4 items over fields in five spellings, stars, NR / NF / aNR / bNR, calls of user functions with commas and brackets inside arguments and string literals (f("x, y", [a1, 2, [1]]), g(...)[0]), literals that look like syntax, typed expressions, UNNEST, aliases written as / AS; families rotating over plain, quotients (a slash right after a closing bracket and another one in a later item), DISTINCT, DISTINCT COUNT, TOP, GROUP BY with aggregates, * EXCEPT, UPDATE, JOIN, JOIN + DISTINCT COUNT; rectangular tables; header / no header alternating. Each case: rbql.query with probes vs reference header names, icontract-armed query_table, CSV writer (every case) and query_pandas_dataframe (every 4th) which enforce the width; every 4th headed case also through SqliteRecordIterator / SqliteDbRegistry over a table holding the same data (plain, with a GENERATED column VIRTUAL or STORED, through a VIEW) into the CSV writer; JS leg. distinct_nontrivial = distinct (query, header names) that produced an output header.',
-        'required': ['py_cases', 'headers_observed', 'contract_evaluations', 'csv_writer_runs', 'csv_reader_runs', 'csv_reader_runs_last_name_empty', 'pandas_runs', 'sqlite_runs:plain', 'sqlite_runs:generated', 'sqlite_runs:view', 'js_cases'],
+        'required': ['py_cases', 'headers_observed', 'contract_evaluations', 'csv_writer_runs', 'csv_reader_runs', 'csv_reader_runs_last_name_empty', 'wrong_length_names_runs', 'pandas_runs', 'sqlite_runs:plain', 'sqlite_runs:generated', 'sqlite_runs:view', 'js_cases'],
         'extra': {'shapes_seen': shapes},
         'assumptions': ['rv/model/refsem.py header_names states the documented naming rule (DISTINCT COUNT: the count column is col1 and the following positional names count it)', 'parenthesised fields like (a1), mixed-case As, variable-width lists are outside the rule and not generated'],
     }
